@@ -51,7 +51,12 @@ RULE = ("a case = service kind (ephemeral v2/v3, basic-auth ephemeral with Tor-m
         "any position. Distinct = hash of (kind, mode, stimuli). Non-trivial = at least one own event was delivered to the listener "
         "and the reference was compared after every stimulus.")
 ASSUMPTIONS = [
-    "per directory and service: UPLOAD precedes its UPLOADED/FAILED; at most one attempt per directory per history",
+    "per directory and service: UPLOAD precedes its UPLOADED/FAILED; one outcome per directory per history, but a report may be REPEATED "
+    "(same UPLOADED / FAILED again, optionally the UPLOAD again: two replicas on one directory, a repeated report) - the directory's state "
+    "does not change (tagged +own-report-repeated)",
+    "FAILED events carry REASON=UPLOAD_REJECTED, REASON=UNEXPECTED or no REASON field: all are upload failures of the named service",
+    "tagged classes in which create() fails for a reason that is not Tor's answer: cancelled by the caller while the creating command / the "
+    "wait's own SETEVENTS is unanswered, TorConfig.save() refusing a second service for an already configured directory: the cleanup clause applies",
     "Tor emits HS_DESC only while the controller is subscribed (events after the wait unsubscribed are not sent)",
     "own events that precede the creating reply (Tor does not do this) are judged on safety only, under two readings (taken into account / "
     "ignored): completing while an attempt announced AFTER the reply is unresolved (await-all), completing without any own UPLOADED, or "
@@ -75,14 +80,26 @@ ANCHORS = [
 FLOORS = {
     "quick": {"evaluations": 1200, "prefix_checks": 8000, "events_delivered": 5000, "outcomes_compared": 800,
               "cleanup_checked": 800, "metamorphic_pairs": 500, "liveness_obligations": 500,
+              "cases_with_repeated_own_report": 100, "rejected_cases": 10,
               "reach:txtorcon.onion:_await_descriptor_upload": 1200,
               "reach:txtorcon.torcontrolprotocol:TorControlProtocol.remove_event_listener": 500},
     "thorough": {"evaluations": 60000, "prefix_checks": 400000, "events_delivered": 250000, "outcomes_compared": 40000,
                  "cleanup_checked": 30000, "metamorphic_pairs": 20000, "liveness_obligations": 20000,
+                 "cases_with_repeated_own_report": 2000, "rejected_cases": 10,
                  "reach:txtorcon.onion:_await_descriptor_upload": 60000},
 }
 
 KINDS = ("eph3", "eph2", "auth-gen", "auth-key", "fs3", "fs2")
+# what Tor puts on an HS_DESC FAILED of an upload ("" = no REASON= field)
+FAIL_REASONS = ("UPLOAD_REJECTED", "UNEXPECTED", "")
+
+
+def fail_reason(case, d):
+    """REASON of a FAILED for directory d: varies with the directory and (deterministically) with the schedule"""
+    shift = case.get("reason_shift")
+    if shift is None:
+        shift = zlib.crc32(signature(case["stimuli"]).encode("ascii"))
+    return FAIL_REASONS[(d + shift) % 3]
 ACT = {"U": "UPLOAD", "S": "UPLOADED", "F": "FAILED"}
 X = 9          # a directory the own service never uses
 
@@ -136,6 +153,40 @@ def merges(a, b):
         yield out
 
 
+def with_duplicates(h):
+    """histories in which ONE report is repeated: a result (UPLOADED d / FAILED d) again at any later position
+    (a second replica landing on the same directory, a repeated report), optionally with the UPLOAD d repeated
+    before the first result as well.  The directory's outcome does not change."""
+    out = []
+    for i, (a, d) in enumerate(h):
+        if a == "U":
+            continue
+        for j in range(i + 1, len(h) + 1):
+            out.append(h[:j] + [(a, d)] + h[j:])
+        u = next(k for k, (b, e) in enumerate(h) if b == "U" and e == d)
+        out.append(h[:u + 1] + [("U", d)] + h[u + 1:i + 1] + [(a, d)] + h[i + 1:])
+    return out
+
+
+def dup_cases(maxn, minn=1):
+    for n in range(minn, maxn + 1):
+        for h in histories(list(range(n)), True):
+            for h2 in with_duplicates(h):
+                ev = [["o", a, d] for (a, d) in h2]
+                yield [["R"]] + ev
+
+
+def has_own_duplicate(stimuli):
+    seen = set()
+    for s in stimuli:
+        if s[0] == "o":
+            k = (s[1], s[2])
+            if k in seen:
+                return True
+            seen.add(k)
+    return False
+
+
 def own_cases(maxn, minn=1):
     """A: own events only, reply at every position"""
     for n in range(minn, maxn + 1):
@@ -176,6 +227,12 @@ def random_case(rnd):
     rnd.shuffle(pool)
     fo = [["f", a, d] for (a, d) in random_history(rnd, pool[:m])]
     seq = random_merge(rnd, own, fo)
+    if rnd.random() < 0.25:           # a repeated report of an own result
+        res = [k for k, t in enumerate(seq) if t[0] == "o" and t[1] != "U"]
+        if res:
+            k = rnd.choice(res)
+            j = rnd.randint(k + 1, len(seq))
+            seq = seq[:j] + [list(seq[k])] + seq[j:]
     if rnd.random() < 0.3:            # own CREATED noise (Tor sends it before the uploads)
         k = rnd.randint(0, len(seq))
         seq = seq[:k] + [["n", "CREATED", 0]] + seq[k:]
@@ -324,6 +381,8 @@ def mode_name(case):
 def input_class(case, what):
     if known_trigger(case["stimuli"]):
         return mode_name(case) + "+foreign-UPLOADED-on-own-attempted-dir"
+    if has_own_duplicate(case["stimuli"]):
+        what += "+own-report-repeated"
     return mode_name(case) + "+" + what
 
 
@@ -336,7 +395,7 @@ def signature(stimuli):
 
 class Run(object):
     __slots__ = ("fired_at", "ok", "err", "cbs", "left", "hs_subscribed", "last_setevents", "log", "twice_at",
-                 "progress", "sent", "suppressed", "harness", "value_ok", "delivered_own")
+                 "progress", "sent", "suppressed", "harness", "value_ok", "delivered_own", "reasons")
 
 
 _ROOT = []
@@ -372,6 +431,10 @@ def execute(case):
     r.sent = r.suppressed = r.delivered_own = 0
     r.harness = None
     r.value_ok = True
+    r.reasons = set()
+    r.left = []
+    r.hs_subscribed = False
+    r.last_setevents = None
     tor = OT.OnionTor()
     proto, tor, link = connected_protocol(tor)
     cfg = TorConfig(proto)
@@ -399,6 +462,11 @@ def execute(case):
         word = "SETCONF" if kind.startswith("fs") else "ADD_ONION"
         if special == "rejected":
             tor.script(word, (512 if word == "ADD_ONION" else 513, [("end", "Unacceptable: refused by the harness")]))
+        elif special == "cancelled":
+            # the caller cancels (or addTimeout()s) create() while a command of the creation is unanswered
+            tor.hold_next("SETEVENTS" if case["cancel_point"] == "subscription-outstanding" else word)
+        elif special == "dupdir":
+            pass
         elif special != "badkey":
             tor.hold_next(word)
         kw = dict(await_all_uploads=case["await_all"], progress=lambda p, tag, d: r.progress.append(p))
@@ -416,12 +484,31 @@ def execute(case):
             pk = {"auth-gen": None, "auth-key": OT.KEYS.rsa(OT.CALLER_BASE).blob, "auth-discard": DISCARD}[kind]
             d = EphemeralAuthenticatedOnionService.create(reactor, cfg, ports, version=2, private_key=pk,
                                                           auth=AuthBasic(["bob"]), **kw)
+        elif special == "dupdir":
+            # a second FilesystemOnionService.create() for a directory that is already configured:
+            # TorConfig.save() refuses locally (RuntimeError), nothing is sent for it
+            hsdir = tempfile.mkdtemp(prefix="hs", dir=scratch_root())
+            tor.auto_upload = 1
+            o0 = aud.watch(FilesystemOnionService.create(reactor, cfg, hsdir, ports, version=int(kind[-1])), "first")
+            link.pump()
+            tor.auto_upload = 0
+            if not (o0.fired == 1 and o0.ok):
+                r.harness = "first creation of the directory did not complete: %s" % (o0.describe(),)
+                return r
+            del r.cbs[:]
+            d = FilesystemOnionService.create(reactor, cfg, hsdir, ["81 127.0.0.1:8081"], version=int(kind[-1]), **kw)
         else:
             hsdir = tempfile.mkdtemp(prefix="hs", dir=scratch_root())
             d = FilesystemOnionService.create(reactor, cfg, hsdir, ports, version=int(kind[-1]), **kw)
         o = aud.watch(d, "create")
         link.pump()
-        if special in ("rejected", "badkey"):
+        if special == "cancelled":
+            if len(tor.held) != 1 or o.fired:
+                r.harness = "nothing outstanding to cancel at: %r %s" % (tor.lines[-2:], o.describe())
+                return r
+            d.cancel()
+            link.pump()
+        if special in ("rejected", "badkey", "cancelled", "dupdir"):
             addr = OT.KEYS.ed(77).service_id
         else:
             if len(tor.held) != 1:
@@ -434,7 +521,7 @@ def execute(case):
             return AO.hsdir_name(names[dn] if names else dn)
         for i, s in enumerate(stimuli):
             if s[0] == "R":
-                if special not in ("rejected", "badkey"):
+                if special not in ("rejected", "badkey", "dupdir"):
                     tor.release()
             else:
                 who = foreign if s[0] == "f" else addr
@@ -442,7 +529,10 @@ def execute(case):
                     sent = tor.hs_desc("CREATED", who, "UNKNOWN", replica=0)
                 else:
                     sent = tor.hs_desc(ACT[s[1]], who, dirname(s[2]),
-                                       descid=AO.descriptor_id(who, s[2]) if s[1] != "S" else None)
+                                       descid=AO.descriptor_id(who, s[2]) if s[1] != "S" else None,
+                                       reason=fail_reason(case, s[2]) if s[1] == "F" else None)
+                    if s[1] == "F":
+                        r.reasons.add(fail_reason(case, s[2]) or "none")
                 if sent:
                     r.sent += 1
                     if s[0] == "o":
@@ -489,16 +579,32 @@ _PROJ = {}
 def projected(case):
     """the same case without the foreign service's events (cached)"""
     st = [s for s in case["stimuli"] if s[0] != "f"]
-    key = (case["kind"], case["await_all"], signature(st), tuple(case.get("dirnames") or ()), bool(case.get("app_listener")))
+    # the own events keep the REASON= fields they have in the original schedule
+    shift = case.get("reason_shift")
+    if shift is None:
+        shift = zlib.crc32(signature(case["stimuli"]).encode("ascii")) % 3
+    key = (case["kind"], case["await_all"], signature(st), tuple(case.get("dirnames") or ()), bool(case.get("app_listener")), shift)
     res = _PROJ.get(key)
     if res is None:
         c2 = dict(case)
         c2["stimuli"] = st
+        c2["reason_shift"] = shift
         run = execute(c2)
         res = _PROJ[key] = (run.fired_at, run.ok, run.harness)
         if len(_PROJ) > 50000:
             _PROJ.clear()
     return st, res
+
+
+FAIL_CAUSES = {"rejected": "creating-command-rejected", "badkey": "key-rejected-before-sending",
+               "cancelled": "create-cancelled-by-caller", "dupdir": "config-save-refused-locally"}
+
+
+def failure_cause(case):
+    c = FAIL_CAUSES[case["special"]]
+    if case["special"] == "cancelled":
+        c += "+" + case["cancel_point"]
+    return c
 
 
 def run_case(case, rec):
@@ -529,11 +635,11 @@ def run_case(case, rec):
     outcome = None if p is None else ("ok" if run.ok else "fail")
     detail = {"fired_at": p, "outcome": outcome, "error": run.err, "schedule": signature(stimuli)}
 
-    if special in ("rejected", "badkey"):
+    if special in FAIL_CAUSES:
         rec.count("rejected_cases")
+        rec.seen("creation_failure_causes", failure_cause(case))
         if outcome != "fail":
-            V("rejected-creation-did-not-fail-create",
-              "creating-command-rejected" if special == "rejected" else "key-rejected-before-sending", detail)
+            V("rejected-creation-did-not-fail-create", failure_cause(case), detail)
     elif special == "auth-discard":
         rec.count("auth_discard_cases")
         if p is None and (ref["can_ok"][-1] or ref["can_fail"][-1]):
@@ -602,7 +708,7 @@ def run_case(case, rec):
     # ---- cleanup -------------------------------------------------------------------------------
     if p is not None:
         rec.count("cleanup_checked")
-        cause = {"rejected": "creating-command-rejected", "badkey": "key-rejected-before-sending"}.get(special, "upload-events")
+        cause = failure_cause(case) if special in FAIL_CAUSES else "upload-events"
         if run.left:
             V("listener-remains-after-%s" % ("success" if run.ok else "failure"), cause,
               dict(detail, listeners_left=len(run.left)))
@@ -625,6 +731,10 @@ def run_case(case, rec):
             rec.count("progress_not_ending_at_100_on_success")
         if outcome != "ok" and 100.0 in pr:
             rec.count("progress_100_without_success")
+    for rs in run.reasons:
+        rec.seen("failed_reasons_delivered", rs)
+    if has_own_duplicate(stimuli):
+        rec.count("cases_with_repeated_own_report")
     rec.seen("outcomes", "%s/%s/%s" % (case["kind"], mode_name(case), outcome))
     rec.seen("schedules", signature(stimuli))
     rec.case(case, nontrivial=run.delivered_own > 0 or special is not None)
@@ -649,6 +759,13 @@ def special_cases():
         for kind in KINDS:
             for st in ([["R"]], [["R"], ["f", "U", 0], ["f", "S", 0]], [["f", "U", 0], ["R"], ["f", "F", 0]]):
                 yield {"kind": kind, "await_all": aw, "stimuli": st, "special": "rejected"}
+        for kind in KINDS:
+            for point in ("creating-command-outstanding", "subscription-outstanding"):
+                for st in ([["R"]], [["f", "U", 0], ["R"], ["f", "S", 0]]):
+                    yield {"kind": kind, "await_all": aw, "stimuli": st, "special": "cancelled", "cancel_point": point}
+        for kind in ("fs3", "fs2"):
+            for st in ([["R"]], [["R"], ["f", "U", 0], ["f", "F", 0]]):
+                yield {"kind": kind, "await_all": aw, "stimuli": st, "special": "dupdir"}
         for kind, bk in (("eph2", "abc\ndef"), ("eph3", "abc\rdef"), ("eph3", "RSA1024:abcdef")):
             yield {"kind": kind, "await_all": aw, "stimuli": [["R"], ["f", "U", 0], ["f", "S", 0]],
                    "special": "badkey", "badkey": bk}
@@ -673,6 +790,11 @@ def shard_cases(spec):
         for st in foreign_cases(spec["own_n"], spec["foreign_m"], tuple(spec.get("reply_modes", ("first", "before-own")))):
             for aw in (False, True):
                 for kind in spec.get("kinds", ("eph3", "fs3")):
+                    yield {"kind": kind, "await_all": aw, "stimuli": st}
+    elif mode == "dups":
+        for st in dup_cases(spec["maxn"], spec.get("minn", 1)):
+            for aw in (False, True):
+                for kind in spec.get("kinds", ("eph3", "fs3", "auth-key")):
                     yield {"kind": kind, "await_all": aw, "stimuli": st}
     elif mode == "applistener":
         # the same own schedules with another HS_DESC listener registered on the connection
@@ -754,10 +876,13 @@ def plan(tier, seed):
                           "part": i, "parts": 2, "sample_every": 300,
                           "name": "sample of own 2 dirs x foreign 2 dirs interleavings"})
         specs.append({"mode": "special", "name": "rejected creating command / discarded key of a basic-auth service / await_all_uploads=None"})
+        specs.append({"mode": "dups", "maxn": 2,
+                      "name": "own orderings over 1-2 directories with one report repeated at every later position x mode x 3 kinds"})
+        specs.append({"mode": "dups", "maxn": 3, "minn": 3, "sample_every": 12,
+                      "name": "sample of own orderings over 3 directories with one report repeated"})
         specs.append({"mode": "applistener", "maxn": 2, "kinds": ["fs3", "fs2", "eph3", "auth-key"],
                       "name": "own orderings over 1-2 directories x reply position x mode with another HS_DESC listener registered"})
-        for i in range(2):
-            specs.append({"mode": "random", "n": 700})
+        specs.append({"mode": "random", "n": 900})
     else:
         for i in range(4):
             specs.append({"mode": "own", "maxn": 3, "part": i, "parts": 4,
@@ -777,6 +902,9 @@ def plan(tier, seed):
                           "part": i, "parts": 8, "timeout_s": 3000,
                           "name": "own 3 dirs x foreign 1 dir x every interleaving x mode"})
         specs.append({"mode": "special", "name": "rejected creating command / discarded key of a basic-auth service / await_all_uploads=None"})
+        for i in range(3):
+            specs.append({"mode": "dups", "maxn": 3, "part": i, "parts": 3,
+                          "name": "own orderings over 1-3 directories with one report repeated at every later position x mode x 3 kinds"})
         for i in range(2):
             specs.append({"mode": "applistener", "maxn": 3, "part": i, "parts": 2,
                           "name": "own orderings over 1-3 directories x reply position x mode x 6 kinds with another HS_DESC listener registered"})
